@@ -5,6 +5,21 @@ HERE = os.path.dirname(os.path.dirname(os.path.abspath(__file__)))
 ALL = ["C%02d" % i for i in range(1, 21)]
 
 CHECKS = {
+ "C17": dict(
+  category="model_checking",
+  text="Effects.tla is a monitor of interpreter-level effects (exec by code shape, import, open-for-write / mkdir / remove / rename by "
+       "location, spawn, socket) with the statement's one exception (sync_properties --input-eval) built in; composed with an "
+       "adversary (input slot in default/type/description/module statement x payload in benign/call/dunder chain/import x API) TLC "
+       "checks that `bad` is unreachable under the as-designed data flow. Binding: for every (API, slot, payload) TLC enumerates, "
+       "the harness builds the adversarial module (payloads would create a sentinel file or import a sentinel module), runs the "
+       "real API (4 parsers incl. merge_inner_function, all emitters on the parsed IR, doctrans, sync, sync_properties with and "
+       "without --input-eval, gen from file with and without --prepend) under sys.addaudithook, and TLC validates every recorded "
+       "event trace against the monitor (TraceEffects.tla, corrupted-trace demonstration on every run); sentinel files are an "
+       "independent second oracle.",
+  design_ref="DESIGN.md section 4, C17",
+  note="Trusted: the event classification (code shape by opcodes, location by realpath). The docstring type probe (eval of a "
+       "whitelisted call-free string) is read as treating input as data, as the property's author does. exmod is judged by C20.",
+  technique="TLA+ effect monitor + adversary model checked by TLC; audit-event traces of the real code validated against the monitor"),
  "C05": dict(
   category="model_checking",
   text="Sql.tla: Emit writes one Column per parameter (column type, Enum for Literal, nullable from Optional/dict, default, comment, "
